@@ -48,6 +48,7 @@ type c04Out struct {
 // fresh keys whose state was imported: (path, key state, entry) -> (verdict, new key state).
 type learner struct {
 	mu    sync.Mutex
+	run   *evid.Run
 	env   *Env
 	memo  map[string]learned
 	count int
@@ -63,7 +64,7 @@ func newLearner(run *evid.Run, cfg Cfg, name string) (*learner, error) {
 	if err != nil {
 		return nil, err
 	}
-	return &learner{env: env, memo: map[string]learned{}}, nil
+	return &learner{run: run, env: env, memo: map[string]learned{}}, nil
 }
 
 func mkAtt(key *rig.Key, name string, src, tgt int8, rootFill byte) *AttCase {
@@ -95,14 +96,27 @@ func (l *learner) lookup(path string, st kst, e c04Entry) learned {
 		}
 	}
 	var v core.Result
-	switch path {
-	case "att":
-		v, _ = env.SignAtt(ViaService, mkAtt(k, env.Names[0], e.Src, e.Tgt, 0xaa))
-	case "atts":
-		res, _ := env.SignAtts(ViaService, []*AttCase{mkAtt(k, env.Names[0], e.Src, e.Tgt, 0xaa), mkAtt(env.Keys[1], env.Names[1], 0, 1, 0xaa)})
-		v = res[0]
-	case "prop":
-		v, _ = env.SignProp(ViaService, mkProp(k, env.Names[0], e.Slot, 0xaa))
+	answered := make(chan struct{})
+	go func() {
+		defer close(answered)
+		switch path {
+		case "att":
+			v, _ = env.SignAtt(ViaService, mkAtt(k, env.Names[0], e.Src, e.Tgt, 0xaa))
+		case "atts":
+			res, _ := env.SignAtts(ViaService, []*AttCase{mkAtt(k, env.Names[0], e.Src, e.Tgt, 0xaa), mkAtt(env.Keys[1], env.Names[1], 0, 1, 0xaa)})
+			v = res[0]
+		case "prop":
+			v, _ = env.SignProp(ViaService, mkProp(k, env.Names[0], e.Slot, 0xaa))
+		}
+	}()
+	select {
+	case <-answered:
+	case <-time.After(60 * time.Second):
+		// The reference itself - ONE request processed alone - does not come back.
+		buf := make([]byte, 1<<20)
+		dump := string(buf[:runtime.Stack(buf, true)])
+		l.run.Violate(fmt.Sprintf("a single %s request processed entirely alone (the one-at-a-time reference) did not return within 60 s", path), dump[:min(len(dump), 6000)])
+		c04Stuck(l.run)
 	}
 	rs, err := env.Stack.ReadState(k.Pub)
 	if err != nil {
@@ -828,7 +842,19 @@ func c04Independent(run *evid.Run, cfg Cfg, violate func(string, any)) {
 			}
 		}()
 	}
-	wg.Wait()
+	finished := make(chan struct{})
+	go func() { wg.Wait(); close(finished) }()
+	select {
+	case <-finished:
+	case <-time.After(120 * time.Second):
+		buf := make([]byte, 1<<20)
+		dump := string(buf[:runtime.Stack(buf, true)])
+		if strings.Contains(dump, "locker/syncmap.(*Service).Lock") || strings.Contains(dump, "locker/syncmap.(*Service).PreLock") || strings.Contains(dump, "sync.(*Mutex).Lock") {
+			violate("independent clients: requests did not complete within 120 s and are blocked acquiring locks; processing them one at a time always completes", dump[:min(len(dump), 6000)])
+		}
+		c04Stuck(run)
+		return
+	}
 	run.Eval(int(total.Load()))
 	run.Count("independent_client_requests", int(total.Load()))
 	run.Count("independent_client_released", int(released.Load()))
@@ -891,7 +917,19 @@ func c04LargeBatches(run *evid.Run, cfg Cfg, violate func(string, any)) {
 			}()
 		}
 		close(start)
-		wg.Wait()
+		finished := make(chan struct{})
+		go func() { wg.Wait(); close(finished) }()
+		select {
+		case <-finished:
+		case <-time.After(90 * time.Second):
+			buf := make([]byte, 1<<20)
+			dump := string(buf[:runtime.Stack(buf, true)])
+			if strings.Contains(dump, "locker/syncmap.(*Service).Lock") || strings.Contains(dump, "locker/syncmap.(*Service).PreLock") || strings.Contains(dump, "sync.(*Mutex).Lock") {
+				violate(fmt.Sprintf("large overlapping batches over %d keys did not complete within 90 s and are blocked acquiring locks; processing them one at a time always completes", n), dump[:min(len(dump), 6000)])
+			}
+			c04Stuck(run)
+			return
+		}
 		// Per key: who was signed?
 		winnerOf := make([]int, n)
 		wins := make([]int, clients)
